@@ -360,8 +360,11 @@ NoOverstay == pc \in {"Apply", "Post"} => \A i \in Arrived \ gone : t < sess[i].
 \* a departed session leaves at its departure period, or earlier if early departure is on
 DepartureTime == \A i \in gone : goneAt[i] = sess[i].dep \/ (early /\ goneAt[i] < sess[i].dep /\ goneAt[i] >= sess[i].arr)
 \* after post_charging_update nobody waits behind a satisfied EV
+\* (a session that asks for nothing is satisfied the moment it is admitted: if that happens inside post_charging_update,
+\* whose list of satisfied EVs was made before, it stays for one period)
 EarlyEffective ==
-    (pc = "Loop" /\ early /\ waiting # <<>>) => \A s \in Stations : occ[s] # 0 => ~Full(evE, occ[s])
+    (pc = "Loop" /\ early /\ waiting # <<>>) =>
+        \A s \in Stations : occ[s] # 0 => (~Full(evE, occ[s]) \/ sess[occ[s]].req <= 60)
 \* every session is gone by the end of the run
 AllGoneAtEnd ==
     pc \in {"Done", "Emitted"} =>
